@@ -160,7 +160,7 @@ def _remap(x, lo, bo, owner):
     return x
 
 
-def _splice(caller, bi, callee):
+def _splice(caller, bi, callee, adts=None):
     """caller body dict with the call in block bi replaced by the callee's blocks"""
     cb = caller["body"]
     fb_ = callee["body"]
@@ -198,11 +198,15 @@ def _splice(caller, bi, callee):
     nbody = dict(cb)
     nbody["locals"] = new_locals
     nbody["blocks"] = blocks
-    corr = _correlation(blocks, bo, len(fb_["blocks"]), lo, call, cont)
+    corr = _correlation(blocks, bo, len(fb_["blocks"]), lo, call, cont, adts or {})
     if corr and not os.environ.get("WOWSRP_NO_THREAD") and _thread(blocks, corr):
         corr = None
-    if corr:
-        nbody["corr"] = list(cb.get("corr", [])) + [corr]
+    inherited = []
+    for c in fb_.get("corr", []):
+        # correlations established inside the callee (helpers of the helper) move with its blocks
+        inherited.append({"assign": {k + bo: v for k, v in c["assign"].items()}, "switch": c["switch"] + bo, "succ": {v: t + bo for v, t in c["succ"].items()}})
+    if corr or inherited or cb.get("corr"):
+        nbody["corr"] = list(cb.get("corr", [])) + inherited + ([corr] if corr else [])
     out["body"] = nbody
     return out
 
@@ -273,21 +277,45 @@ def _thread(blocks, corr):
     return True
 
 
-def _correlation(blocks, bo, n_callee, lo, call, cont):
-    """A spliced helper that returns Result / Option: each of its return sites builds one known
-    variant, and the caller tests exactly that value (`?` or a match on it) right after the
-    call.  Recorded so that path queries do not mix the Ok return with the Err arm (cfg.py)."""
+def _correlation(blocks, bo, n_callee, lo, call, cont, adts=None):
+    """A spliced helper that returns an enum (Result, Option, or one of the crate's own): each of
+    its return sites builds one known variant, and the caller tests exactly that value (`?` or a
+    match on it) right after the call.  Recorded so that path queries do not mix, say, the Ok
+    return with the Err arm (cfg.py); used by _thread to duplicate the stretch per variant."""
+    adts = adts or {}
+
+    def discr_of(path, vname, vidx):
+        """the value switchInt(discriminant(..)) sees for this variant, or None if unknown"""
+        if path in ("std::result::Result", "std::option::Option"):
+            return vidx
+        a = adts.get(path)
+        if a is None or a.get("kind") != "Enum":
+            return None
+        for v in a["variants"]:
+            if v["name"] == vname and "discr" in v:
+                return int(v["discr"])
+        return None
+
     assign = {}
+    dvals = {}
     for k in range(n_callee):
         blk = blocks[bo + k]
         v = None
         for st in blk["stmts"]:
             if st["k"] == "assign" and st["place"] == {"l": lo, "p": []}:
                 rv = st["rv"]
-                v = rv.get("vname") if rv["k"] == "aggregate" and rv.get("path") in ("std::result::Result", "std::option::Option") else "?"
+                v = "?"
+                if rv["k"] == "aggregate" and rv.get("ak") == "adt" and rv.get("vname") is not None:
+                    dv = discr_of(rv.get("path"), rv["vname"], rv.get("variant"))
+                    if dv is not None:
+                        v = rv["vname"]
+                        dvals[v] = dv
         t = blk["term"]
         if t["k"] == "call" and t.get("dest") == {"l": lo, "p": []}:
-            v = "Err" if "FromResidual" in (t.get("resolved") or t.get("callee") or "") else "?"
+            v = "?"
+            if "FromResidual" in (t.get("resolved") or t.get("callee") or ""):
+                v = "Err"
+                dvals.setdefault("Err", 1)
         if v is not None:
             assign[bo + k] = v
     if not assign or "?" in assign.values() or len(set(assign.values())) < 2:
@@ -306,10 +334,12 @@ def _correlation(blocks, bo, n_callee, lo, call, cont):
                 dl = st["place"]["l"]
         if dl is not None and t["k"] == "switch" and t["discr"].get("place") == {"l": dl, "p": []}:
             tg = {int(a): bb for a, bb in t["targets"]}
-            if via_branch or any(v in ("Ok", "Err") for v in assign.values()):
-                succ = {"Ok": tg.get(0, t["otherwise"]), "Err": tg.get(1, t["otherwise"])}
+            if via_branch:
+                # ControlFlow: Continue = 0 for the good variant, Break = 1 for the residual
+                good = {"Ok", "Some"}
+                succ = {v: (tg.get(0, t["otherwise"]) if v in good else tg.get(1, t["otherwise"])) for v in set(assign.values())}
             else:
-                succ = {"None": tg.get(0, t["otherwise"]), "Some": tg.get(1, t["otherwise"])}
+                succ = {v: tg.get(dvals[v], t["otherwise"]) for v in set(assign.values())}
             return {"assign": assign, "switch": b, "succ": succ}
         if t["k"] == "call" and "Try>::branch" in (t.get("resolved") or "") and len(t["args"]) == 1 and t["args"][0].get("place") == {"l": tested, "p": []} and not t["dest"]["p"]:
             tested = t["dest"]["l"]
@@ -341,18 +371,21 @@ def signature_table(d):
     return out
 
 
-def adt_signature_table(d):
-    """{ADT path: signature} for types that are not reachable from outside the crate"""
+def adt_signature_table(d, public=False):
+    """{ADT path: signature} for types that are not reachable from outside the crate
+    (public=True: for those that are - they can move behind a re-export, never change name)"""
     tys = d["types"]
     out = {}
     for a in d["adts"]:
-        if a.get("reachable") or a.get("generic"):
+        if bool(a.get("reachable")) != public or a.get("generic"):
             continue
         vs = []
         for v in a["variants"]:
             vs.append("%d:%s" % (len(v["fields"]), ",".join(tys[f["ty"]]["s"] for f in v["fields"])))
         # the type's own path inside its field types (recursive types) is masked
         sig = "%s|%s|copy=%s" % (a["kind"], ";".join(vs).replace(a["path"], "Self"), a.get("copy"))
+        for x, y in (("hmac::digest::", "digest::"), ("sha1::digest::", "digest::"), ("md5::digest::", "digest::")):
+            sig = sig.replace(x, y)
         out[a["path"]] = sig
     return out
 
@@ -407,6 +440,17 @@ def adt_aliases(d):
         mod = old.split("::")[0]
         if len(cands) == 1 and len(rivals) == 1 and any(p.split("::")[0] == mod for p in have):
             out[cands[0]] = old
+    # a public type moved into another (private) module and re-exported at its old path: same
+    # name, same fields, old definition path gone
+    pub_anchors = (_ANCHORS or {}).get("adts_pub", {})
+    cur_pub = adt_signature_table(d, public=True)
+    for old, sig in pub_anchors.items():
+        if old in have:
+            continue
+        last = old.rsplit("::", 1)[-1]
+        cands = [p for p, s2 in cur_pub.items() if s2 == sig and p not in pub_anchors and p.rsplit("::", 1)[-1] == last and p.split("::")[0] == old.split("::")[0]]
+        if len(cands) == 1:
+            out[cands[0]] = old
     return out
 
 
@@ -426,6 +470,17 @@ class FactBase:
         for a, b in (("hmac::digest::", "digest::"), ("sha1::digest::", "digest::"), ("md5::digest::", "digest::"), ("sha1::Digest", "digest::Digest"), ("hmac::Mac", "digest::Mac")):
             raw = raw.replace(a, b)
         self.d = json.loads(raw)
+        # an inherent impl written in another module than its type (`mod reconnect { impl SrpServer
+        # { .. } }`) is printed `server::reconnect::<impl server::SrpServer>::f`: the method is
+        # `server::SrpServer::f` wherever the impl block stands
+        import re as _re
+        local_adts = sorted({a["path"] for a in self.d["adts"]}, key=len, reverse=True)
+        if local_adts and "::<impl " in raw:
+            pat = _re.compile(r"(?<![A-Za-z0-9_:])(?:[a-z_][a-z0-9_]*::)+<impl (" + "|".join(_re.escape(json.dumps(a)[1:-1]) for a in local_adts) + r")>::")
+            raw2 = pat.sub(lambda m: m.group(1) + "::", raw)
+            if raw2 != raw:
+                raw = raw2
+                self.d = json.loads(raw)
         ta = adt_aliases(self.d)
         if ta:
             # a renamed / moved crate-private type: its path is rewritten everywhere (type strings,
@@ -494,7 +549,9 @@ class FactBase:
         def is_fresh(b):
             if b.kind not in ("Fn", "AssocFn") or b.path in known or b.d.get("instance_of") in known:
                 return False
-            if (b.reachable() and b.is_pub()) or b.d.get("impl_trait") or "variant_of" in b.d:
+            if b.d.get("impl_trait") and not self.fresh_trait(b.d["impl_trait"]):
+                return False            # an impl of std's / a dependency's / a pinned-tree trait
+            if (b.reachable() and b.is_pub() and not b.d.get("impl_trait")) or "variant_of" in b.d:
                 return False
             if len(b.blocks) > 80:
                 return False
@@ -519,7 +576,7 @@ class FactBase:
                 for bi, t in list(b.calls()):
                     r = t.get("resolved")
                     if r in fresh and r != p and t.get("target") is not None and r in self.bodies:
-                        nd = _splice(b.d, bi, self.bodies[r].d)
+                        nd = _splice(b.d, bi, self.bodies[r].d, self.adts)
                         nb = Body(self, nd)
                         nb.path = p
                         self.bodies[p] = nb
@@ -531,6 +588,18 @@ class FactBase:
         self.spliced = done
         self._absorbed = None
         return done
+
+    def fresh_trait(self, tpath):
+        """a trait defined in this crate that did not exist on the pinned tree (which defines
+        none): its impls and provided methods are helpers like any other extracted function"""
+        if not tpath:
+            return False
+        mods = getattr(self, "_local_mods", None)
+        if mods is None:
+            mods = {p_.split("::")[0] for p_ in self.bodies if not p_.startswith("<")}
+            self._local_mods = mods
+        known = set((_ANCHORS or {}).get("traits", []))
+        return tpath.split("::")[0] in mods and tpath not in known
 
     def absorbed(self):
         """fresh helpers that no longer exist as functions of their own for the rules: every call
@@ -589,8 +658,18 @@ class FactBase:
         vs[name] = Body(self, d)
         return name
 
-    def const_bytes(self, path):
+    def const_item(self, path):
+        """the constant at `path`; when it is gone, the one constant of the same name that now
+        lives in a sub-module of the same top-level module (moved behind a re-export)"""
         c = self.consts.get(path)
+        if c is None:
+            top, last = path.split("::")[0], path.rsplit("::", 1)[-1]
+            cands = [v for k, v in self.consts.items() if k.split("::")[0] == top and k.rsplit("::", 1)[-1] == last and k.startswith(path.rsplit("::", 1)[0] + "::")]
+            c = cands[0] if len(cands) == 1 else None
+        return c
+
+    def const_bytes(self, path):
+        c = self.const_item(path)
         if c is None:
             return None
         v = c.get("val") or {}
@@ -599,7 +678,7 @@ class FactBase:
         return None
 
     def const_int(self, path):
-        c = self.consts.get(path)
+        c = self.const_item(path)
         if c is None:
             return None
         v = c.get("val") or {}
